@@ -101,7 +101,7 @@ func peers(r *core.Rng, p *big.Int) []*big.Int {
 	one := big.NewInt(1)
 	max := new(big.Int).Sub(new(big.Int).Lsh(one, 2056), one)
 	lz := new(big.Int).SetBytes(r.Bytes(r.Range(1, len(p.Bytes())-1))) // value with leading zero octets
-	kp := new(big.Int).Mul(p, big.NewInt(int64(r.Range(2, 200)))) // a multiple of p below 2^2056
+	kp := new(big.Int).Mul(p, big.NewInt(int64(r.Range(2, 200))))      // a multiple of p below 2^2056
 	return []*big.Int{big.NewInt(0), big.NewInt(1), big.NewInt(2), new(big.Int).Sub(p, one), new(big.Int).Set(p), new(big.Int).Add(p, one), max, kp,
 		lz, new(big.Int).SetBytes(r.Bytes(len(p.Bytes()))), new(big.Int).SetBytes(r.Bytes(257))}
 }
